@@ -234,6 +234,7 @@ package engine
 // A list pattern with elisions: the first section is anchored at the start, every later section is
 // searched left to right (shortest run for the elision before it), and the list must be consumed.
 //@ func (m SliceDotsMatcher) Match(got, d, r) (d1, ok)
+//@   ensures [C04] some-choice-of-runs-suffices: someRuns(boxed(m), got, dmap(d), r) ==> ok
 //@   requires typing: len(m.Sections) > 0 && len(m.Dots) == len(m.Sections) - 1
 //@   requires typing: forall s int {m.Sections[s]} :: 0 <= s && s < len(m.Sections) ==> forall j int {m.Sections[s][j]} :: 0 <= j && j < len(m.Sections[s]) ==> m.Sections[s][j] != nil
 //@   requires typing: forall s int {m.Sections[1:][s]} :: 0 <= s && s < len(m.Sections) - 1 ==> forall j int {m.Sections[1:][s][j]} :: 0 <= j && j < len(m.Sections[1:][s]) ==> m.Sections[1:][s][j] != nil
@@ -265,6 +266,7 @@ package engine
 //@   unfold-post imOK(m, file, dmap(d)) == ok && (ok ==> imD(m, file, dmap(d)) == dmap(d1))
 //@   ensures ok == imOK(m, file, dmap(d)) && (ok ==> dmap(d1) == imD(m, file, dmap(d)))
 //@   ensures [C10] path-not-imported: ret("goast.FindImportSpec", 0) == nil ==> !ok
+//@   ensures [C10] any-unnamed-import-of-the-path-suffices: m.Name == nil && (exists i int :: 0 <= i && i < len(file.Imports) && unquoted(file.Imports[i].Path.Value) == m.Path && file.Imports[i].Name == nil) ==> ok
 //@   ensures [C10] unnamed-matches-only-unnamed: ret("goast.FindImportSpec", 0) != nil && m.Name == nil ==> (ok <==> ret("goast.FindImportSpec", 0).Name == nil)
 //@   ensures [C10] literal-name-does-not-match-unnamed: ret("goast.FindImportSpec", 0) != nil && m.Name != nil && ret("goast.FindImportSpec", 0).Name == nil && !m.NameIsMetavar ==> !ok
 //@   ensures [C10] metavariable-name-matches-unnamed: ret("goast.FindImportSpec", 0) != nil && m.Name != nil && ret("goast.FindImportSpec", 0).Name == nil && m.NameIsMetavar ==> ok == MatchOK(m.Name, ret("reflect.ValueOf", 1), dmap(ret("data.WithValue", 2)), nodeRegionOf(boxed(ret("goast.FindImportSpec", 0))))
